@@ -285,6 +285,7 @@ fn run_split_e2e(c: &SplitCase) -> Outcome {
     foreign_inscribed: false,
     cardinals: 1,
     no_rune_index: false,
+    no_inscription_index: false,
   };
   let w = World::new(spec);
   for k in 0..n_runes {
@@ -703,6 +704,7 @@ fn run_send(c: &SendCase) -> Outcome {
     foreign_inscribed: false,
     cardinals: 1,
     no_rune_index: false,
+    no_inscription_index: false,
   };
   let w = World::new(spec);
   for k in 0..c.n_runes {
@@ -831,7 +833,7 @@ fn run_send(c: &SendCase) -> Outcome {
 // ------------------------------------------------------------------ entry points
 
 pub fn gen(rng: &mut Rng, tier: &str) -> Vec<Line> {
-  let (n_split, n_send) = if tier == "thorough" { (20_000, 300) } else { (3_000, 36) };
+  let (n_split, n_send) = if tier == "thorough" { (20_000, 300) } else { (3_000, 24) };
   let mut v = Vec::new();
   for _ in 0..n_send {
     v.push(encode_send(&gen_send(rng)));
